@@ -23,17 +23,23 @@ def op_names(data):
 
 
 def shards(tier, quick_len=4, thorough_len=6, quick_random=350, thorough_random=6000,
-           quick_natural=120, thorough_natural=2500, container_len=None, alias_len=None):  # fmt: skip
+           quick_natural=120, thorough_natural=2500, container_len=None, alias_len=None,
+           kwargs_len=None):  # fmt: skip
     n = 16
     L = quick_len if tier == "quick" else thorough_len
     out = [{"kind": "enum", "L": L, "depth": 2, "part": i, "nparts": n} for i in range(n)]
     out[0]["short"] = True
-    for name, lens in (("containers", container_len), ("aliasing", alias_len)):
+    for name, lens in (("containers", container_len), ("aliasing", alias_len), ("kwargs", kwargs_len)):
         if lens:
             Lc = lens[0] if tier == "quick" else lens[1]
             extra = [{"kind": "enum", "alphabet": name, "L": Lc, "depth": 2, "part": i, "nparts": n}
                      for i in range(n)]  # fmt: skip
             extra[0]["short"] = True
+            if name == "kwargs":
+                # only the programs that reach NEWOBJ_EX are of interest (the rest is a subset of
+                # what the focus alphabet already enumerates)
+                for e in extra:
+                    e["require"] = "\x92"
             out += extra
     per = quick_random if tier == "quick" else thorough_random
     out += [{"kind": "random", "n": per, "idx": i} for i in range(16)]
@@ -56,7 +62,10 @@ def run_shard(spec, seed, judge, nt_prog, nt_bytes, focus=None, full=None):
                 yield from asm.enumerate_from(prof, pre, spec["L"])
 
         n = 0
+        req = spec.get("require", "").encode("latin-1")
         for prog in progs():
+            if req and req not in prog.data:
+                continue
             f, klass = judge(prog.data, prog)
             res.note(None, nt_prog(prog), klass=klass, sample={"enum": prog.data.hex()})
             res.excluded.update(prog.excluded)
@@ -70,6 +79,7 @@ def run_shard(spec, seed, judge, nt_prog, nt_bytes, focus=None, full=None):
         res.info[key] = (
             f"all typed programs over the {len(prof.ops)}-op {spec.get('alphabet', 'focus')} alphabet "
             f"with <= {spec['L']} opcodes before STOP (count in enumerated_programs)"
+            + (" that contain NEWOBJ_EX" if req else "")
         )
     elif spec["kind"] == "random":
         prof = full or asm.full_profile(vocab.ASM_GLOBS)
